@@ -194,9 +194,13 @@ pub fn describe(img: &ModularImage) -> String {
 
 pub fn run(args: &Args) -> i32 {
     let thorough = args.thorough();
+    let tiny = args.extra.contains_key("tiny");
     run_cases(args, 0xC03, |case| {
         let mut rng = case.rng.fork();
-        let opts = ImgOpts {
+        let opts = if tiny {
+            // Miri: keep images tiny (the interpreter is ~10^4 times slower)
+            ImgOpts { size_class: 0, max_dim: 8, max_extra: 1, allow_local: false, ..Default::default() }
+        } else { ImgOpts {
             size_class: match rng.below(10) {
                 0 => 0,
                 1..=5 => 1,
@@ -206,7 +210,7 @@ pub fn run(args: &Args) -> i32 {
             },
             max_dim: if thorough { 1100 } else { 300 },
             ..Default::default()
-        };
+        } };
         let mut img = None;
         for _ in 0..30 {
             if let Some(i) = gen_modular_image(&mut rng, &opts) {
